@@ -296,7 +296,7 @@ def run_op(prep, st, ctx, out, sim):
 # --------------------------------------------------------------------------- tee histories
 def src_closed_early(src):
     """Closed by somebody although not exhausted"""
-    if src.exhausted:
+    if src.exhausted or src.killed:
         return False
     if src.plan.flavour == "agen":
         return src.agen is not None and src.agen.ag_frame is None
